@@ -1067,7 +1067,9 @@ bool StepScript(ScriptExecutionEnvironment& env, CScript::const_iterator& pc, CS
                     // script, even in an unexecuted branch (this is checked above the opcode case statement).
 
                     // Hash starts after the code separator
-                    pbegincodehash = pc;
+                    // (pc points into the session's script only when no local script is being stepped; an
+                    // iterator into an `exec` temporary would dangle once that script is gone)
+                    if (!local_script) pbegincodehash = pc;
                     execdata.m_codeseparator_pos = opcode_pos;
                 }
                 break;
